@@ -238,3 +238,44 @@ int ctl_src_sum64(ctl_rd_t *rd, void *dst, unsigned int off, unsigned int n)
 	memcpy(dst, rd->buffer + off, n);
 	return 0;
 }
+
+/* memory versions: a guard on a field is worth nothing once the field was rewritten */
+typedef struct ctl_hdr_t {
+	unsigned int size;
+	unsigned int other;
+} ctl_hdr_t;
+
+void ctl_refill(ctl_hdr_t *h);
+void ctl_touch_other(ctl_hdr_t *h);
+int ctl_stale_guard(ctl_rd_t *rd, ctl_hdr_t *h, const void *src);
+int ctl_fresh_guard(ctl_rd_t *rd, ctl_hdr_t *h, const void *src);
+
+void ctl_refill(ctl_hdr_t *h)
+{
+	h->size = h->size * 2 + 1;
+}
+
+void ctl_touch_other(ctl_hdr_t *h)
+{
+	h->other += 1;
+}
+
+/* wrong: the size that was compared is not the size that is used */
+int ctl_stale_guard(ctl_rd_t *rd, ctl_hdr_t *h, const void *src)
+{
+	if (h->size > rd->block_size)
+		return -1;
+	ctl_refill(h);
+	memcpy(rd->buffer, src, h->size);
+	return 0;
+}
+
+/* correct: the call in between leaves the size alone */
+int ctl_fresh_guard(ctl_rd_t *rd, ctl_hdr_t *h, const void *src)
+{
+	if (h->size > rd->block_size)
+		return -1;
+	ctl_touch_other(h);
+	memcpy(rd->buffer, src, h->size);
+	return 0;
+}
